@@ -14,6 +14,7 @@ Terms are in the vlib.codec encoding.
 import contextlib
 import gc
 import json
+import resource
 import signal
 import warnings
 from fractions import Fraction
@@ -27,10 +28,12 @@ from vlib.libsig import numeral
 
 ID = 'C10'
 RULE = ("(conversion, term) cases and canonicity pairs, all built by construction from typed grammars. Conversions: "
-        "rewr_conv over a pool of library equations (plain, sym=True, conditional with supplied condition theorems, "
-        "higher-order patterns) applied directly, along the exact path to a planted instance (arg/arg1/fun/abs/argn "
-        "combinators through Suc, + , *, =, connectives, quantifiers, beta-redexes, if-then-else, lambda) or by top_conv / "
-        "bottom_conv / top_sweep_conv / sub_conv / repeat_conv / assums_conv / then / else / every; beta_conv, "
+        "rewr_conv over a pool of 33 library equations of theories nat / logic (plain, sym=True, conditional with supplied "
+        "condition theorems given as assumptions or as gaps, conditions about another instance, higher-order patterns with "
+        "beta-redexes in the instance), rewr_conv / replace_conv with a supplied equation theorem, applied directly, along "
+        "the exact path to a planted instance (arg/arg1/fun/abs/argn combinators through Suc, + , *, =, connectives, "
+        "quantifiers, beta-redexes, if-then-else, lambda; instances mention the bound variables) or by top_conv / "
+        "bottom_conv / top_sweep_conv / sub_conv / repeat_conv / assums_conv / then / else / every / binop / comb; beta_conv, "
         "beta_norm_conv, eta_conv over generated lambda terms with redexes; nat binary arithmetic (Suc_conv, add_conv, "
         "mult_conv on binary numerals up to 10^6), nat_conv / nat_eval_conv / nat_eq_conv on ground terms, nat.norm_full on "
         "polynomials with + * Suc numerals variables and atoms f x; integer simp_full / int_norm_conv / omega_simp_full_conv / "
@@ -41,8 +44,8 @@ RULE = ("(conversion, term) cases and canonicity pairs, all built by constructio
         "fun_upd_eval_conv / fun_upd_norm_conv / fun_upd_norm_one_conv on update chains with numeral keys. Oracle per case: result is an "
         "equation whose left side is the input (holpy == and the independent alpha-equivalence), hypotheses and gaps come "
         "from the supplied conditions only, theory.check_proof accepts the exported proof and returns the same sequent, an "
-        "overridden eval returns the same theorem, and both sides agree semantically (exact rational evaluation at >= 8 "
-        "points satisfying the hypotheses; all truth assignments; finite standard models for pure-logic terms; beta-eta "
+        "overridden eval returns the same theorem, and both sides agree semantically (exact rational evaluation at those of 14 / 36 "
+        "sample points that satisfy the hypotheses; all truth assignments; finite standard models for pure-logic terms; beta-eta "
         "equivalence for beta/eta conversions; table semantics of fun_upd). Canonicity pairs: one polynomial over nat or "
         "real (resp. one set of conjuncts / disjuncts) rendered twice (recursive commutativity, associativity, "
         "distribution, factoring, unit and zero insertion, numeral splitting, Suc x = x + 1, x - y = x + -1 * y, x / c = "
@@ -97,6 +100,11 @@ def setup():
     import hypothesis  # noqa: F401
     from hypothesis import strategies  # noqa: F401
     warnings.filterwarnings('ignore', category=SyntaxWarning)
+    try:
+        from hypothesis.errors import HypothesisDeprecationWarning
+        warnings.filterwarnings('ignore', category=HypothesisDeprecationWarning)
+    except ImportError:
+        pass
     from data import nat, integer, real, proplogic, function   # noqa: F401
     from integral import inequality                           # noqa: F401
     from logic import basic, conv, auto, logic
@@ -248,17 +256,24 @@ def mk_fun_upd(base, ups):
 
 @contextlib.contextmanager
 def cpu_limit(seconds):
-    """Raise Timeout after `seconds` of user CPU time of this process (independent of the load of the machine)."""
+    """Raise Timeout after `seconds` of user CPU time of this process (independent of the load of the machine).
+    Re-entrant: an enclosing limit keeps running.  Periodic: code under test with a bare `except:` may swallow the
+    first Timeout."""
     def handler(signum, frame):
         raise Timeout()
     old = signal.signal(signal.SIGVTALRM, handler)
-    # periodic: code under test with a bare `except:` may swallow the first Timeout
-    signal.setitimer(signal.ITIMER_VIRTUAL, seconds, 0.5)
+    t0 = resource.getrusage(resource.RUSAGE_SELF).ru_utime
+    outer_left, outer_int = signal.setitimer(signal.ITIMER_VIRTUAL, seconds, 0.5)
+    if outer_left and outer_left < seconds:
+        signal.setitimer(signal.ITIMER_VIRTUAL, outer_left, 0.5)
     try:
         yield
     finally:
         signal.setitimer(signal.ITIMER_VIRTUAL, 0)
         signal.signal(signal.SIGVTALRM, old)
+        if outer_left:
+            used = resource.getrusage(resource.RUSAGE_SELF).ru_utime - t0
+            signal.setitimer(signal.ITIMER_VIRTUAL, max(outer_left - used, 0.05), outer_int or 0.5)
 
 
 # ====================================================================================================== conversions
@@ -1612,7 +1627,12 @@ def run_shard(desc, seed, tier, H):
             H.note('skipped-after-timeouts:%s' % desc['group'])
             return
         try:
-            run_case(case, H)
+            with cpu_limit(150):
+                run_case(case, H)
         except CaseInvalid as e:
             H.note('generated-out-of-domain:%s' % desc['group'])
+        except Timeout:
+            # the oracles themselves ran out of time (enormous results): nothing is concluded
+            H.inconc('case-timeout:%s' % desc['group'])
+            _TIMEOUTS[0] += 1
     harness.hyp_run(strat, body, desc['n'], seed)
